@@ -90,6 +90,14 @@ static int line_to_instr(struct instr *instr_data, char *filtered_asm_str) {
   instr_data->key = str_to_instr_key(instr_data->instruction, opd_format);
   FAIL_IF_VAR(instr_data->key == INSTR_ERROR,
               "unsupported or illegal instruction: %s\n", asm_str);
+  // the operand format n stands for "no operand" and for "one immediate":
+  // the table row tells which of the two the instruction takes
+  if (opd_format == n) {
+    bool takes_imm =
+        INSTR_TABLE[instr_data->key].encode_operand != (operand_encoding)NA;
+    FAIL_IF_VAR(instr_data->imm != takes_imm,
+                "unsupported or illegal instruction: %s\n", asm_str);
+  }
   if (instr_data->imm && TYPE(instr_data->key, CONTROL_FLOW)) {
     // the rel8 encoding, if the instruction has one, is the next table row
     bool only_short = INSTR_TABLE[instr_data->key].encode_operand == S;
